@@ -14,7 +14,7 @@ use std::cell::Cell;
 use std::collections::VecDeque;
 use std::sync::{Condvar, Mutex, MutexGuard};
 
-pub const MAX_THREADS: usize = 96;
+pub const MAX_THREADS: usize = 512;
 const CONFIRM_ROUNDS: u32 = 8;
 const TAIL: usize = 96;
 
